@@ -26,7 +26,7 @@ SPEC = {
 }
 
 MANIFEST = {
-    "text": ("System level (trace-validated on real endpoints): unauthenticated garbage and structure-aware forgeries (sim_c03), 28 kinds of "
+    "text": ("System level (trace-validated on real endpoints): unauthenticated garbage and structure-aware forgeries (sim_c03), 29 kinds of "
              "illegal frame sequences from an authenticated peer with the error class RFC 9000 prescribes (sim_c03h / MonC03), and 72 "
              "mutations of the peer's transport parameters presented to a live connection through a wrapped crypto session "
              "(sim_c03t / MonC03T: no panic, no unbounded loop, an undecodable encoding ends exactly the victim with "
